@@ -1,5 +1,6 @@
 (* RunC02.v -- runner for C02.  Cases:
      (write <fstyle> <adoc>)            -> (file xBYTES <expected>) | (none)      reference writer (Spec/RefWriter.v)
+     (writem <fstyle> (<part>..) <adoc>) -> the same for a file of several parts (ref_write_multi)
      (load xBYTES (ids...) <expected>)  -> <expected>                             what the file defines
      (xrefstream (d ...) xCONTENT)      -> decode_xref_stream (Model/Xref.v)
      (xreftable xBYTES)                 -> xref_and_trailer, first alternative (Model/Xref.v)
@@ -210,6 +211,27 @@ Definition fstyle_of (x : sx) : option fstyle :=
   | _ => None
   end.
 
+Definition sxblock_of (x : sx) : option (eolk * nat * nat * eolk * option eolk) :=
+  match x with
+  | SL [e1; s1; s2; e2; fe] =>
+    do e1 <- as_eolk e1; do s1 <- as_nat s1; do s2 <- as_nat s2; do e2 <- as_eolk e2; do fe <- as_opt_eolk fe;
+    Some (e1, s1, s2, e2, fe)
+  | _ => None
+  end.
+Definition mpart_of (x : sx) : option mpart :=
+  match x with
+  | SL [t; nums; olds; relist; order; xr; sxb] =>
+    if is_id t "part" then
+      do nums <- as_Ns nums; do olds <- as_list olds;
+      do olds <- omap (fun p => match p with
+                                | SL [n; o] => do n <- as_N n; do o <- obj_of_sx o; Some (n, o)
+                                | _ => None end) olds;
+      do relist <- as_Ns relist; do order <- as_Ns order; do xr <- xstyle_of xr; do sxb <- sxblock_of sxb;
+      Some {| mp_nums := nums; mp_old := olds; mp_relist := relist; mp_order := order; mp_xref := xr; mp_sx := sxb |}
+    else None
+  | _ => None
+  end.
+
 Definition adoc_of (x : sx) : option adoc :=
   match x with
   | SL [t; v; tr; SL (_ :: os)] =>
@@ -264,6 +286,9 @@ Definition expected_sx (a : adoc) (size : N) : sx :=
 Definition size_of (st : fstyle) (a : adoc) : N :=
   1 + max_num (map (fun io => fst (fst io)) (a_objs a) ++ map os_id (s_ostms st) ++
                match s_xref st with XStream x => [xs_id x] | XTable _ => [] end).
+
+Definition size_of_multi (st : fstyle) (parts : list mpart) (a : adoc) : N :=
+  1 + max_num (map (fun io => fst (fst io)) (a_objs a) ++ map os_id (s_ostms st) ++ part_xids parts).
 
 (* ---------- model cases ---------- *)
 Definition no_decompress (d : dict) (c : bytes) : option (dict * bytes) := None.
@@ -342,7 +367,21 @@ Definition run (x : sx) : sx :=
     else if is_id t "asset" then SL [sx_id "asset"; sx_id "ok"]
     else sx_id "badcase"
   | SL [t; b; ig; e] =>
-    if is_id t "load" then
+    if is_id t "writem" then
+      (* (writem <fstyle> (<part> ...) <adoc>): a file of several parts, each with its own cross-reference section *)
+      match fstyle_of b, (do l <- as_list ig; omap mpart_of l), adoc_of e with
+      | Some st, Some parts, Some ad =>
+        match ref_write_multi st parts ad with
+        | Some f => SL [sx_id "file"; sx_bytes f; expected_sx ad (size_of_multi st parts ad);
+                        SL [sx_id "known"; sx_bool (Known_raw_eol_multi st parts ad); sx_bool (Known_deep_parens ad);
+                            sx_bool (Known_asciihex st)]]
+        | None => SL [sx_id "none"]
+        end
+      | None, _, _ => sx_id "badstyle"
+      | _, None, _ => sx_id "badparts"
+      | _, _, None => sx_id "baddoc"
+      end
+    else if is_id t "load" then
       match as_bytes b, as_Ns ig with
       | Some f, Some ignore =>
         match load f with
